@@ -227,8 +227,9 @@ def work_complex(item):
             it0.compute_interpolant(real_data, s0)
         elif history == 'after_2d':
             SI.SplineInterpolator2D(other, basis)
-        itc = SI.SplineInterpolator1D(basis, dtype=complex)
-        spc = SP.Spline1D(basis, dtype=complex)
+        cdt = np.complex128 if history == 'np128' else complex          # numpy's name for the same type is a legitimate spelling
+        itc = SI.SplineInterpolator1D(basis, dtype=cdt)
+        spc = SP.Spline1D(basis, dtype=cdt)
         itc.compute_interpolant(cdata, spc)
         out = dict(c=spc)
         if history == 'real_after':
@@ -496,7 +497,7 @@ def main():
     for r in H.pmap(work_2d, c2, run.args.jobs):
         run.merge(r)
     cc = []
-    for hist in ('fresh', 'after_real', 'after_2d', 'real_after'):
+    for hist in ('fresh', 'after_real', 'after_2d', 'real_after', 'np128'):
         cc.append((3, 'graded', 3, 'nu', hist, None))
         cc.append((3, 'uniform', 4, 'cu', hist, None))
         if run.tier != 'quick':
